@@ -38,7 +38,7 @@ def setup():
     nb, ME = c03.nb, c03.ME
 
 
-PA = 'ab :$#\\'
+PA = 'ab :$#\\\t'      # incl. a TAB: whitespace that Ninja has NO escape for (only '$ ' exists) must stay as it is
 
 
 def sym_set():
